@@ -26,6 +26,9 @@ def tasks(tier, seed):
             t.opts = dict(t.opts, digest_tags=())
             ts.append(t)
 
+    # a valid file this library did not write: no padding behind the last object (decoder's skip vs. end-of-stream declaration)
+    ts += SCH.foreign_tasks(tier, 'sched', kinds | {'hang'})
+
     post = SCH.digest_post
     meta = dict(
         level='model_checking',
